@@ -2302,3 +2302,463 @@ func (c *Check) aliasMatchesAliasesOnly() {
 		c.ok("C15-R14", "alias-compare:none", p.relFile(f.Pos()), "findByAlias compares the spelling with nothing directly", "lookup is done otherwise (a table built from the aliases)")
 	}
 }
+
+// ---------------------------------------------------------------- round J
+
+// minimumSeededUnset (C15-R16): the output unit "minimum" is chosen for the smallest non-zero
+// value displayed; the report total only stands in when there is none.  The running minimum
+// of selectOutputUnit's loop over the nodes starts as "unset" (a constant), not as the
+// total: seeded with the total, a report whose total is smaller than its entries (a diff
+// against a small base) picks the unit of the total and prints every entry as a huge number
+// of small units.
+func (c *Check) minimumSeededUnset() {
+	p := c.P
+	f := p.Func("internal/report", "(*Report).selectOutputUnit")
+	if f == nil {
+		return // reported by outputUnitFromDisplayedValues
+	}
+	n := 0
+	for _, g := range withHelpers(f, 1) {
+		for _, b := range g.Blocks {
+			isHdr := false
+			for _, pr := range b.Preds {
+				if b.Dominates(pr) {
+					isHdr = true
+				}
+			}
+			if !isHdr {
+				continue
+			}
+			for _, ins := range b.Instrs {
+				ph, ok := ins.(*ssa.Phi)
+				if !ok {
+					break
+				}
+				if bt, ok := ph.Type().Underlying().(*types.Basic); !ok || bt.Kind() != types.Int64 {
+					continue
+				}
+				for i, e := range ph.Edges {
+					if b.Dominates(b.Preds[i]) {
+						continue // the back edge
+					}
+					if ld, ok := e.(*ssa.UnOp); ok && ld.Op == token.MUL {
+						if fa, ok := ld.X.(*ssa.FieldAddr); ok {
+							if T, F := fieldOf(fa.X.Type(), fa.Field); T == "report.Report" && F == "total" {
+								n++
+								c.bad("C15-R16", fmt.Sprintf("min-seed:%s#%d", fnName(g), n), p.relFile(ph.Pos()), fnName(g)+" starts the search for the smallest displayed value from the report total: when the total is smaller than every entry (a diff-base report counts only the base samples) the unit is chosen for the total, and entries of gigabytes are printed in kilobytes")
+							}
+						}
+					}
+				}
+			}
+		}
+	}
+	if n == 0 {
+		c.ok("C15-R16", "min-seed", p.relFile(f.Pos()), "the smallest displayed value is searched among the entries only", "no loop-carried int64 of selectOutputUnit is initialised from Report.total")
+	}
+}
+
+// partialLastLineProcessed (C14-R14): a text table read with ReadString (bufio.Reader or bytes.Buffer) ends
+// either with a newline or with the end of the input; in the second case ReadString hands
+// back the last line together with io.EOF.  On the path where the error is io.EOF the reading
+// loop is left only after the line was found empty: leaving at once drops the last entry of a
+// Java location table that has no trailing newline (its frames lose function, file and line).
+func (c *Check) partialLastLineProcessed() {
+	p := c.P
+	n := 0
+	forAllPkgFuncs(p, "profile", func(f0 *ssa.Function) {
+		forEachFuncAndAnon(f0, func(f *ssa.Function) {
+			for _, b := range f.Blocks {
+				for _, ins := range b.Instrs {
+					call, ok := ins.(*ssa.Call)
+					if !ok || call.Call.StaticCallee() == nil || (call.Call.StaticCallee().String() != "(*bufio.Reader).ReadString" && call.Call.StaticCallee().String() != "(*bytes.Buffer).ReadString") {
+						continue
+					}
+					hdr := loopHeaderAround(b)
+					for _, pr := range b.Preds {
+						if b.Dominates(pr) {
+							hdr = b // `for { line, err := r.ReadString(...) ...}`: the call's block heads the loop
+						}
+					}
+					if hdr == nil {
+						continue
+					}
+					loop := naturalLoop(hdr)
+					var line, errv ssa.Value
+					for _, r := range *call.Referrers() {
+						if ex, ok := r.(*ssa.Extract); ok {
+							if ex.Index == 0 {
+								line = ex
+							} else {
+								errv = ex
+							}
+						}
+					}
+					if line == nil || errv == nil {
+						continue
+					}
+					isEOF := func(v ssa.Value) bool {
+						ld, ok := v.(*ssa.UnOp)
+						if !ok || ld.Op != token.MUL {
+							return false
+						}
+						g, ok := ld.X.(*ssa.Global)
+						return ok && g.Pkg != nil && g.Pkg.Pkg.Path() == "io" && g.Name() == "EOF"
+					}
+					emptyTest := func(cond ssa.Value) int { // 1: true edge means "line is empty", -1: false edge does
+						cmp, ok := cond.(*ssa.BinOp)
+						if !ok {
+							return 0
+						}
+						isLine := func(v ssa.Value) bool { return v == line }
+						if s, ok := constString(cmp.Y); ok && s == "" && isLine(cmp.X) || func() bool { s, ok := constString(cmp.X); return ok && s == "" && isLine(cmp.Y) }() {
+							switch cmp.Op {
+							case token.EQL:
+								return 1
+							case token.NEQ:
+								return -1
+							}
+						}
+						if la := lenArg(cmp.X); la != nil && isLine(la) {
+							if k, ok := constInt(cmp.Y); ok && k == 0 {
+								switch cmp.Op {
+								case token.EQL:
+									return 1
+								case token.NEQ, token.GTR:
+									return -1
+								}
+							}
+						}
+						return 0
+					}
+					// the blocks entered when err == io.EOF
+					for _, tb := range f.Blocks {
+						iff, ok := tb.Instrs[len(tb.Instrs)-1].(*ssa.If)
+						if !ok {
+							continue
+						}
+						cmp, ok := iff.Cond.(*ssa.BinOp)
+						if !ok || !((cmp.X == errv && isEOF(cmp.Y)) || (cmp.Y == errv && isEOF(cmp.X))) {
+							continue
+						}
+						var eofBlock *ssa.BasicBlock
+						switch cmp.Op {
+						case token.EQL:
+							eofBlock = tb.Succs[0]
+						case token.NEQ:
+							eofBlock = tb.Succs[1]
+						default:
+							continue
+						}
+						n++
+						key := fmt.Sprintf("eof-line:%s#%d", fnName(f), n)
+						// can the loop be left from eofBlock without passing "line is empty"?
+						leaves := false
+						seen := map[*ssa.BasicBlock]bool{}
+						var walk func(x *ssa.BasicBlock)
+						walk = func(x *ssa.BasicBlock) {
+							if leaves || seen[x] {
+								return
+							}
+							if !loop[x] {
+								leaves = true
+								return
+							}
+							if x == hdr {
+								return // next iteration
+							}
+							seen[x] = true
+							// the line is being processed here: this path does not drop it
+							for _, xi := range x.Instrs {
+								if bo, isCmp := xi.(*ssa.BinOp); isCmp && emptyTest(bo) != 0 {
+									continue
+								}
+								var ops []*ssa.Value
+								for _, op := range xi.Operands(ops) {
+									if op != nil && *op == line {
+										return
+									}
+								}
+							}
+							if i2, ok := x.Instrs[len(x.Instrs)-1].(*ssa.If); ok {
+								switch emptyTest(i2.Cond) {
+								case 1:
+									walk(x.Succs[1]) // the empty edge may leave; follow the non-empty one only
+									return
+								case -1:
+									walk(x.Succs[0])
+									return
+								}
+							}
+							for _, sc := range x.Succs {
+								walk(sc)
+							}
+						}
+						walk(eofBlock)
+						if leaves {
+							c.bad("C14-R14", key, p.relFile(cmp.Pos()), fnName(f)+" leaves its reading loop as soon as ReadString reports io.EOF, without looking at the line returned with it: the last line of a table that does not end in a newline is dropped (the frames it describes lose their function, file and line)")
+						} else {
+							c.ok("C14-R14", key, p.relFile(cmp.Pos()), "at the end of the input the last partial line is still processed", "on the io.EOF path the loop is left only through a test that the line is empty")
+						}
+					}
+				}
+			}
+		})
+	})
+	if n == 0 {
+		c.ok("C14-R14", "eof-line:none", "", "package profile reads no table with ReadString in a loop that tests io.EOF", "nothing to check")
+	}
+}
+
+// offsetsComparedWhenBothKnown (C14-R15): adjacent memory-map ranges of one file are merged
+// "if the offsets match, if they are available".  In adjacent() a comparison that involves
+// the Offset of both mappings is made only where both were found non-zero: tested on one side
+// only, a binary split into two ranges of which the first has no offset is left as two
+// mappings and the locations of the second range are attributed to the wrong one.
+func (c *Check) offsetsComparedWhenBothKnown() {
+	p := c.P
+	f := c.anchorFn("C14-R15", "profile", "adjacent")
+	if f == nil || len(f.Params) < 2 {
+		return
+	}
+	offsetOf := func(v ssa.Value) *ssa.Parameter {
+		ld, ok := v.(*ssa.UnOp)
+		if !ok || ld.Op != token.MUL {
+			return nil
+		}
+		fa, ok := ld.X.(*ssa.FieldAddr)
+		if !ok {
+			return nil
+		}
+		if _, F := fieldOf(fa.X.Type(), fa.Field); F != "Offset" {
+			return nil
+		}
+		par, _ := fa.X.(*ssa.Parameter)
+		return par
+	}
+	var mentions func(v ssa.Value, d int, out map[*ssa.Parameter]bool)
+	mentions = func(v ssa.Value, d int, out map[*ssa.Parameter]bool) {
+		if d > 5 {
+			return
+		}
+		if par := offsetOf(v); par != nil {
+			out[par] = true
+			return
+		}
+		if bo, ok := v.(*ssa.BinOp); ok {
+			mentions(bo.X, d+1, out)
+			mentions(bo.Y, d+1, out)
+		}
+	}
+	n := 0
+	for _, b := range f.Blocks {
+		for _, ins := range b.Instrs {
+			cmp, ok := ins.(*ssa.BinOp)
+			if !ok || (cmp.Op != token.NEQ && cmp.Op != token.EQL) {
+				continue
+			}
+			m := map[*ssa.Parameter]bool{}
+			mentions(cmp, 0, m)
+			if len(m) < 2 {
+				continue
+			}
+			n++
+			key := fmt.Sprintf("offsets-known#%d", n)
+			missing := ""
+			for par := range m {
+				par := par
+				test := func(cond ssa.Value, want bool, d int) bool {
+					c2, ok := cond.(*ssa.BinOp)
+					if !ok {
+						return false
+					}
+					if q := offsetOf(c2.X); q == par {
+						if k, ok := constInt(c2.Y); ok && k == 0 {
+							return (c2.Op == token.NEQ && want) || (c2.Op == token.EQL && !want)
+						}
+					}
+					return false
+				}
+				if !dominatedByTest(b, test, 0) {
+					missing = par.Name()
+				}
+			}
+			if missing == "" {
+				c.ok("C14-R15", key, p.relFile(cmp.Pos()), "the offsets of two ranges are compared only when both are known", "the comparison is dominated by a non-zero test of each mapping's Offset")
+			} else {
+				c.bad("C14-R15", key, p.relFile(cmp.Pos()), "adjacent compares the offsets of the two ranges although the Offset of "+missing+" was not found non-zero: a first range without an offset (0) followed by the rest of the same binary is no longer merged, and the profile gets a second mapping for one binary")
+			}
+		}
+	}
+	if n == 0 {
+		c.ok("C14-R15", "offsets-known:none", p.relFile(f.Pos()), "adjacent compares no pair of offsets", "nothing to check")
+	}
+}
+
+// wordReadersHaveOneByteOrder (C14-R16): binary CPU profiles come in either endianness and
+// word size; each of the word readers (func([]byte) (uint64, []byte)) assembles its result
+// from the bytes of the input in one consistent order - byte i shifted by 8*i (little-endian)
+// or by 8*(n-1-i) (big-endian).  The layout is computed from the shift-or expression of the
+// result, through sibling readers and re-slicing (a 64-bit reader built from two 32-bit
+// reads): a reader whose halves are each big-endian but combined low half first is neither,
+// and 64-bit big-endian profiles are no longer recognised.
+func (c *Check) wordReadersHaveOneByteOrder() {
+	p := c.P
+	isReader := func(f *ssa.Function) bool {
+		sig := f.Signature
+		if sig.Recv() != nil || sig.Params().Len() != 1 || sig.Results().Len() != 2 {
+			return false
+		}
+		return typeShort(sig.Params().At(0).Type()) == "[]byte" && typeShort(sig.Results().At(1).Type()) == "[]byte" && typeShort(sig.Results().At(0).Type()) == "uint64"
+	}
+	type layout map[int]int // byte index → shift
+	memo := map[*ssa.Function]layout{}
+	consumed := map[*ssa.Function]int{}
+	var layoutOf func(f *ssa.Function, depth int) layout
+	// offset of a slice value relative to the function's parameter
+	var offsetOf func(f *ssa.Function, s ssa.Value, depth int) (int, bool)
+	offsetOf = func(f *ssa.Function, s ssa.Value, depth int) (int, bool) {
+		if depth > 8 {
+			return 0, false
+		}
+		switch x := s.(type) {
+		case *ssa.Parameter:
+			return 0, true
+		case *ssa.Slice:
+			if x.High != nil {
+				return 0, false
+			}
+			k := int64(0)
+			if x.Low != nil {
+				var ok bool
+				if k, ok = constInt(x.Low); !ok {
+					return 0, false
+				}
+			}
+			o, ok := offsetOf(f, x.X, depth+1)
+			return o + int(k), ok
+		case *ssa.Extract:
+			if call, ok := x.Tuple.(*ssa.Call); ok && x.Index == 1 {
+				if h := call.Call.StaticCallee(); h != nil && isReader(h) && len(call.Call.Args) == 1 {
+					if layoutOf(h, depth+1) == nil {
+						return 0, false
+					}
+					o, ok := offsetOf(f, call.Call.Args[0], depth+1)
+					return o + consumed[h], ok
+				}
+			}
+		}
+		return 0, false
+	}
+	layoutOf = func(f *ssa.Function, depth int) layout {
+		if l, ok := memo[f]; ok {
+			return l
+		}
+		memo[f] = nil
+		if depth > 4 {
+			return nil
+		}
+		var eval func(v ssa.Value, shift int, out layout, d int) bool
+		eval = func(v ssa.Value, shift int, out layout, d int) bool {
+			if d > 40 {
+				return false
+			}
+			switch x := v.(type) {
+			case *ssa.BinOp:
+				switch x.Op {
+				case token.OR, token.ADD:
+					return eval(x.X, shift, out, d+1) && eval(x.Y, shift, out, d+1)
+				case token.SHL:
+					k, ok := constInt(x.Y)
+					return ok && eval(x.X, shift+int(k), out, d+1)
+				}
+			case *ssa.Convert:
+				return eval(x.X, shift, out, d+1)
+			case *ssa.UnOp:
+				if x.Op == token.MUL {
+					if ia, ok := x.X.(*ssa.IndexAddr); ok {
+						i, ok1 := constInt(ia.Index)
+						o, ok2 := offsetOf(f, ia.X, 0)
+						if ok1 && ok2 {
+							out[o+int(i)] = shift
+							return true
+						}
+					}
+				}
+			case *ssa.Extract:
+				if call, ok := x.Tuple.(*ssa.Call); ok && x.Index == 0 {
+					if h := call.Call.StaticCallee(); h != nil && isReader(h) && len(call.Call.Args) == 1 {
+						hl := layoutOf(h, depth+1)
+						o, ok2 := offsetOf(f, call.Call.Args[0], 0)
+						if hl == nil || !ok2 {
+							return false
+						}
+						for i, s := range hl {
+							out[o+i] = s + shift
+						}
+						return true
+					}
+				}
+			}
+			return false
+		}
+		for _, b := range f.Blocks {
+			ret, ok := b.Instrs[len(b.Instrs)-1].(*ssa.Return)
+			if !ok || len(ret.Results) != 2 {
+				continue
+			}
+			if k, isK := ret.Results[0].(*ssa.Const); isK && k.Value != nil {
+				continue // the short-input return
+			}
+			out := layout{}
+			if !eval(ret.Results[0], 0, out, 0) || len(out) == 0 {
+				return nil
+			}
+			if o, ok := offsetOf(f, ret.Results[1], 0); ok {
+				consumed[f] = o
+			} else {
+				return nil
+			}
+			memo[f] = out
+			return out
+		}
+		return nil
+	}
+	n := 0
+	forAllPkgFuncs(p, "profile", func(f *ssa.Function) {
+		if f.Parent() != nil || !isReader(f) || !strings.HasSuffix(p.Fset.Position(f.Pos()).Filename, "/legacy_profile.go") {
+			return
+		}
+		l := layoutOf(f, 0)
+		if l == nil {
+			return // not a shift-or reader (reads through encoding/binary, say): nothing to decide here
+		}
+		n++
+		nb := len(l)
+		le, be := true, true
+		for i, s := range l {
+			if i < 0 || i >= nb {
+				le, be = false, false
+				break
+			}
+			if s != 8*i {
+				le = false
+			}
+			if s != 8*(nb-1-i) {
+				be = false
+			}
+		}
+		key := "byte-order:" + fnName(f)
+		switch {
+		case le:
+			c.ok("C14-R16", key, p.relFile(f.Pos()), fmt.Sprintf("%s reads a %d-byte little-endian word", fnName(f), nb), "byte i of the input is shifted by 8*i")
+		case be:
+			c.ok("C14-R16", key, p.relFile(f.Pos()), fmt.Sprintf("%s reads a %d-byte big-endian word", fnName(f), nb), "byte i of the input is shifted by 8*(n-1-i)")
+		default:
+			c.bad("C14-R16", key, p.relFile(f.Pos()), fmt.Sprintf("%s assembles its %d-byte word in neither byte order (byte→shift %v): the halves are combined in the order of the other endianness, so profiles of that word size and endianness are read as garbage and rejected", fnName(f), nb, l))
+		}
+	})
+	if n == 0 {
+		c.ok("C14-R16", "byte-order:none", "", "legacy_profile.go has no shift-or word reader", "nothing to check")
+	}
+}
